@@ -140,6 +140,9 @@ def write_evidence(ctx, level, explanation, assumptions, hits, new, extra_cov=No
         "new_violations": [f.text() for f in new],
         "notes": ctx.notes,
         "exhaustive": True,
+        # analysis-only rewrites applied before the rules ran (sa/inline.py, sa/normalize.py); empty on code
+        # written in the pinned tree's style
+        "normalisations_applied": dict(sorted((ctx.p.inlined if ctx.p is not None else {}).items())),
     }
     cov.update(ctx.extra)
     if extra_cov:
